@@ -167,7 +167,7 @@ pub fn run(ctx: &Ctx, rep: &mut Report) {
     rep.rule = "state = concrete decoder state (verif_digest) reached by adding a set of shards in some order; transition = add_original_shard/add_recovery_shard of a shard not yet given; all paths of the subset lattice are explored (= every order of every subset); every state with >= k shards is decoded and compared with the originals (restored set exactly the originals not given, empty when all are given); non-trivial = decoded states with an original missing and a recovery shard present; distinct by (engine,codec,k,r,concrete state)".into();
     rep.assume("verif_digest hashes the fields that exist in the hook commit; state a change adds elsewhere is invisible to merging, which is why orders are additionally enumerated unmerged (all permutations for small k+r, all ordered k- and (k+1)-tuples for skewed configurations)");
     rep.assume("merging two orders is exact: same verif_digest = same configuration, counters, bitmap and working memory, hence same future behaviour of this deterministic code; different digests are never merged");
-    let (nmax_fast, nmax_all, pmax) = if ctx.thorough() { (10usize, 7usize, 6usize) } else { (7, 5, 5) };
+    let (nmax_fast, nmax_all, pmax) = if ctx.thorough() { (11usize, 7usize, 6usize) } else { (7, 5, 5) };
     let mut specs: Vec<(String, &'static str, usize, usize, bool)> = Vec::new();
     for k in 1..nmax_fast {
         for r in 1..nmax_fast {
